@@ -63,22 +63,22 @@ CLAIMED = {
             "integrity_invariant / integrity_every_prefix / single_step_publication / api_never_writes_permanent_in_place for any number of threads, any calls, every instant (a crash is a prefix); "
             "per-call operation sequences of the implementation compared op-for-op with the model; the store directory snapshotted before every operation of 19 calls (sizes 0..multi-buffer) and checked with name=digest / complete-version / whole-cid oracles.",
             "DESIGN.md section 6 C09", "a reader racing with the bytes of a single write(2); fault executions, where shutil.move may fall back to an in-place copy"),
-    "C10": ("Coq proof: reflective enumeration of ALL crash points of each menu scenario by the kernel (vm_compute), lifted to every n by run_crash_stable (CrashFault.v, Crash10_*.v); P-trace/P-crash correspondence",
-            "crash_recovery: for 84 scenarios (7 start states x 12 interrupted calls) and every crash point: others untouched, interrupted pid served right bytes or not-found, delete+store always recovers; "
+    "C10": ("Coq proof: GENERAL theorem for every invariant start state, every call and every crash point (Hoare-style frame discipline + total-correctness recovery lemmas, CrashGeneral.v), plus reflective enumeration of all crash points of an 84-scenario menu by the kernel (CrashFault.v, Crash10_*.v); P-trace/P-crash correspondence",
+            "C10_general_corrected: for all Inv states (no dangling binding, token-size consistency), all calls naming a pid, all n: every other pid untouched, interrupted pid served its own complete bytes or not-found/inconsistent, delete_object (Val or PidRefsDoesNotExist) then store_object succeeds and makes it retrievable; the literal statement without the two side conditions is PROVED false (witnesses in props/C10general.v); menu theorem crash_recovery for 84 scenarios x every crash point; "
             "implementation: directory state before every operation (validated against real fork+os._exit for a sample), reopened by a fresh instance, compared with run_crash and checked by the property's own oracle.",
             "DESIGN.md section 6 C10", "crash = process death with completed file-system operations persisting in order: no power-loss / write-back reordering model"),
     "C13": ("Coq proof: reflective enumeration of ALL fault sites x {one-off, persistent} of each menu scenario by the kernel, lifted to every k by run_fault_beyond (CrashFault.v, Fault13_*.v); P-trace/P-fault correspondence",
             "fault_safe for 77 scenarios x all sites x 2 modes except the 80 points of known13 (proved to fail: D10), one_off_all_pass, no_lock_left; implementation: OSError(EIO/ENOSPC/EACCES) injected at the same site, outcome/state/locks compared with run_fault, property oracle on the implementation.",
             "DESIGN.md section 6 C13", "faults are OSError raised at call entry of the failing operation; short writes / EINTR are not modelled"),
     "C07": ("Coq proof: reflective exhaustive exploration of ALL schedules of every menu scenario by a proved explorer (explore_sound, Sched.v; scenario_sound, Lin.v), one vm_compute per scenario; P-sched correspondence under a controlled scheduler",
-            "lin_pairs: 330 pairs (5 start states x 66 unordered pairs of an 11-call menu) and 245 triples of short calls, every schedule, linearizable and stored-is-retrievable, except the 27 pairs of known07 which are each PROVED to fail "
+            "general: mutual exclusion on every identifier and every modification of a cid reference list happens under that cid's lock, for any pool / schedule / fault pattern (Mutex.v); menu: lin_pairs: 330 pairs (5 start states x 66 unordered pairs of an 11-call menu) and 245 triples of short calls, every schedule, linearizable and stored-is-retrievable, except the 27 pairs of known07 which are each PROVED to fail "
             "(D8 store vs removal of its content, D9 in-progress rejection caused by a delete; known findings); the model's witness schedule of every distinct outcome is replayed on the implementation (per-thread operation sequences, outcomes, files), "
             "plus random schedules judged against the implementation's own sequential runs of every order.",
-            "DESIGN.md section 6 C07, 12.3", "preemption inside a single interposed operation, GIL switching; condition variables are modelled as 'acquire of a held identifier is not enabled' (DESIGN 12.2)"),
+            "DESIGN.md section 6 C07, 12.3", "preemption inside a single interposed operation, GIL switching; the menus use the semantics where an acquire of a held identifier is not enabled - SchedCV.v proves the final configurations of the faithful condition-variable semantics are among them"),
     "C08": ("Coq proof: lock discipline of every API program as a weakest precondition over all answers (faults included), rank argument for deadlock freedom, well-founded termination (Bracket.v) - general, no menu; P-fault + P-sched correspondence",
-            "no_deadlock_no_leak / progress / gstep_terminates / runs_to_completion / afterwards_every_call_returns for any pool of calls, any schedule, any pattern of I/O failures (except a failing flock, covered by the C13 sweep); "
+            "no_deadlock_no_leak / progress / gstep_terminates / runs_to_completion / afterwards_every_call_returns for any pool of calls, any schedule, any pattern of I/O failures (except a failing flock, covered by the C13 sweep); cv_no_lost_wakeup / cv_terminates in a semantics with REAL condition variables (one condition per list, notify wakes one arbitrary waiter, re-test after wake-up; SchedCV.v); "
             "implementation: every fault site of the C13 menu leaves the four lists empty and a follow-up call returns; schedules of C07/C12 scenarios and random 3-4 thread pools of mixed object/metadata calls complete with nothing locked.",
-            "DESIGN.md section 6 C08, 12.2", "a thread blocked inside the kernel, a dead Manager process; notify() is assumed to wake one waiter if there is one"),
+            "DESIGN.md section 6 C08, 12.2", "a thread blocked inside the kernel, a dead Manager process; Condition.notify() wakes at least one waiter if any waits"),
     "C12": ("Coq proof: reflective exhaustive exploration of all schedules of every metadata scenario by the proved explorer; reader clause as a separate boolean; P-sched correspondence",
             "lin_pairs: 275 pairs and 414 triples from 5 start states, every schedule; the 9 pairs / 54 triples of known12 are exactly retrieve_metadata racing a delete (FileNotFoundError where the sequential run says ValueError - both 'not found'), "
             "proved linearizable with the two classes identified (LinNF.v); reader never sees a partial document on ANY scenario; witness schedules replayed on the implementation, random schedules judged against its sequential runs.",
